@@ -2,23 +2,25 @@
 import TdModel.Lemmas.C24
 namespace TdModel.Rpc
 
-theorem inv_loop {cfg : Cfg} {s s' : State} {i : Nat} {b : LoopBr} (hg : cfg.guard = true) (h : Inv s)
+theorem inv_loop {cfg : Cfg} {s s' : State} {i : Nat} {b : LoopBr} (hg : cfg.std = true) (h : Inv s)
     (hs : stepLoop cfg s i b = some s') : Inv s' := by
   unfold stepLoop at hs
+  std_norm hg at hs
   split at hs
   · simp at hs
   · split at hs
     · simp at hs
-    · dsimp only at hs
+    · try dsimp only at hs
       split at hs
       all_goals (split at hs <;> try (simp at hs))
       all_goals (try (split at hs <;> try (simp at hs)))
       all_goals (first | subst hs | (obtain ⟨_, hs⟩ := hs; subst hs))
       all_goals inv_close hg
 
-theorem inv_wait {cfg : Cfg} {s s' : State} {i : Nat} {b : WaitBr} (hg : cfg.guard = true) (h : Inv s)
+theorem inv_wait {cfg : Cfg} {s s' : State} {i : Nat} {b : WaitBr} (hg : cfg.std = true) (h : Inv s)
     (hs : stepWait cfg s i b = some s') : Inv s' := by
   unfold stepWait at hs
+  std_norm hg at hs
   split at hs
   · simp at hs
   · split at hs
@@ -29,21 +31,24 @@ theorem inv_wait {cfg : Cfg} {s s' : State} {i : Nat} {b : WaitBr} (hg : cfg.gua
       all_goals (first | subst hs | (obtain ⟨_, hs⟩ := hs; subst hs))
       all_goals inv_close hg
 
-theorem inv_dret {cfg : Cfg} {s s' : State} {i : Nat} {o : Outcome} (hg : cfg.guard = true) (h : Inv s)
+theorem inv_dret {cfg : Cfg} {s s' : State} {i : Nat} {o : Outcome} (hg : cfg.std = true) (h : Inv s)
     (hs : stepDret cfg s i o = some s') : Inv s' := by
   unfold stepDret at hs
+  std_norm hg at hs
   split at hs
   · simp at hs
   · split at hs <;> simp at hs
     subst hs
     inv_close hg
 
-theorem inv_gpass {s s' : State} {i : Nat} (h : Inv s) (hs : stepGpass s i = some s') : Inv s' := by
+theorem inv_gpass {cfg : Cfg} {s s' : State} {i : Nat} (hg : cfg.std = true) (h : Inv s)
+    (hs : stepGpass cfg s i = some s') : Inv s' := by
   unfold stepGpass at hs
+  std_norm hg at hs
   split at hs
   · simp at hs
   · split at hs <;> simp at hs
     subst hs
-    inv_close True.intro
+    inv_close hg
 
 end TdModel.Rpc
